@@ -787,9 +787,12 @@ def parse_tree_to_objgraph(
                     setattr(obj_attr, attr_name, value)
 
             elif op in ["list", "oneormore", "zeroormore"]:
+                # The separator given by a repetition modifier. It is told
+                # apart by identity: a grammar rule may be named "sep" too.
+                separator = getattr(node.rule, "sep", None)
                 for n in node:
                     # If the node is separator skip
-                    if n.rule_name != "sep":
+                    if separator is None or n.rule is not separator:
                         # Convert node to proper type
                         # Rule links will be resolved later
                         value = process_node(n)
